@@ -267,11 +267,13 @@ type Endpoint struct {
 	outFIN  bool
 	dead    bool // writes are swallowed (half-open or cut)
 	cutKept []chunk
+	writeErr error // set by a cut: later writes fail like on a reset TCP connection
 	stalled time.Duration // extra delay added to chunks written from now on (stall fault)
 
 	Written         [][]byte
 	WrittenAt       []time.Time
 	WriteAfterClose int
+	WriteErrors     int
 	ClosedAt        time.Time
 	// OnWrite is called synchronously on the writing goroutine, outside the lock.
 	OnWrite func(e *Endpoint, b []byte)
@@ -347,6 +349,12 @@ func (e *Endpoint) Write(p []byte) (int, error) {
 		e.WriteAfterClose++
 		e.link.w.mu.Unlock()
 		return 0, errors.New("simnet: write on closed connection")
+	}
+	if e.writeErr != nil {
+		err := e.writeErr
+		e.WriteErrors++
+		e.link.w.mu.Unlock()
+		return 0, err
 	}
 	e.Written = append(e.Written, b)
 	e.WrittenAt = append(e.WrittenAt, now)
@@ -639,4 +647,12 @@ func (l *Link) Cut(keepA, keepB int, rerr error) (int, int) {
 	l.CutFinish(0, rerr)
 	l.CutFinish(1, rerr)
 	return fa, fb
+}
+
+// FailWrites makes every later Write on both endpoints of a cut link return err (a connection reset
+// as the writer sees it). Without it writes on a cut link vanish silently.
+func (l *Link) FailWrites(err error) {
+	l.w.mu.Lock()
+	l.A.writeErr, l.B.writeErr = err, err
+	l.w.mu.Unlock()
 }
